@@ -984,7 +984,13 @@ where
                 self.handle_self_update(Incarnation::default(), State::Down, &mut runtime)?;
             }
 
-            if self.config.notify_down_members {
+            // If they're telling us we're down and there's nothing we can
+            // do about it (we're defunct), replying in kind would only
+            // make two members that consider each other down bounce this
+            // message back and forth forever
+            let undead_exchange =
+                message == Message::TurnUndead && self.connection_state == ConnectionState::Undead;
+            if self.config.notify_down_members && !undead_exchange {
                 self.send_message(src, Message::TurnUndead, runtime)?;
             }
 
